@@ -505,3 +505,26 @@ func VH_C05_BroadcastAndPost_sym() {
 		vAssert("board_post_written_and_announced", e.board.writes == 1 && vSendCount() == 2 && c05ReplyOK(e, t, res))
 	}
 }
+
+// chat: a line (public, or into a private chat the requester is a member of) reaches others only with send-chat
+func VH_C05_ChatSend() {
+	e := vNewEnv()
+	private := vBool("private_chat")
+	fields := []hotline.Field{f(hotline.FieldData, []byte("hello"))}
+	if private {
+		// the other user opened the chat and the requester joined it (joining needs no privilege)
+		chat := e.srv.ChatMgr.New(e.other)
+		vAssume(chat != hotline.ChatID{})
+		e.srv.ChatMgr.Join(chat, e.cc)
+		fields = append(fields, f(hotline.FieldChatID, chat[:]))
+	} else {
+		e.other.Account.Access = hotline.AccessBitmap{0xff, 0xff, 0xff, 0xff, 0xff, 0xff, 0xff, 0xff}
+	}
+	t := c05Req(e, hotline.TranChatSend, fields...)
+	res := HandleChatSend(e.cc, t)
+	allowed := e.has(hotline.AccessSendChat)
+	vCheckPriv("chat_send", e, res, c05ToOthers(e, res, hotline.TranChatMsg) > 0, allowed)
+	if allowed {
+		vAssert("chat_line_delivered_when_entitled", c05ToOthers(e, res, hotline.TranChatMsg) == 1)
+	}
+}
